@@ -55,7 +55,11 @@ pub fn nasm_to_gas(text: &str) -> Result<String, String> {
         ];
         // conditional jumps take a label only: identical in both syntaxes whatever the condition
         let cond_jump = mn.starts_with('j') && mn.len() <= 5 && mn.chars().all(|c| c.is_ascii_lowercase()) && !rest.contains('[') && !rest.contains(' ');
-        if !known.contains(&mn) && !cond_jump {
+        // any other mnemonic made of lower-case letters is passed on with the same operand
+        // rewriting: GNU as decides whether it exists (a line that is no instruction at all is an
+        // error of the transliteration input)
+        let plausible = !mn.is_empty() && mn.len() <= 10 && mn.chars().all(|c| c.is_ascii_lowercase() || c.is_ascii_digit());
+        if !known.contains(&mn) && !cond_jump && !plausible {
             return Err(format!("unknown instruction form: {t}"));
         }
         let mut rest = rest.to_string();
